@@ -84,6 +84,7 @@ pub struct HistProbes {
     pub k_checked_success: u64,
     pub k_checked_refusal: u64,
     pub k_must_succeed: u64,
+    pub k_interface_edge: u64,
     pub k_ok: std::collections::BTreeMap<String, u64>,
 }
 
@@ -246,6 +247,7 @@ pub fn run_history_with(h: &History, checks: Checks, stop_at_first: bool, source
                 probes.k_checked_success += u64::from(kp.checked_success);
                 probes.k_checked_refusal += u64::from(kp.checked_refusal);
                 probes.k_must_succeed += u64::from(kp.must_succeed);
+                probes.k_interface_edge += u64::from(kp.interface_edge);
                 if res.is_ok() {
                     let name: String = format!("{:?}", tx.ops[0]).chars().take_while(|c| c.is_alphanumeric()).collect();
                     *probes.k_ok.entry(name).or_default() += 1;
